@@ -90,6 +90,10 @@ class A:
             return x[0]
         if self.kind == "nested":
             return [x[0], {"y": x[1]}]
+        if self.kind == "null":
+            return None
+        if self.kind == "intkey":
+            return {1: x[0]}
         if self.kind == "typed":
             return {"__type__": "vf.harness.c05_plugins.make_arg", "v": x[0]}
         if self.kind == "eager_seq":
@@ -105,6 +109,8 @@ class A:
         return {
             "scalar": lambda: v[0],
             "nested": lambda: "[%s, {y: %s}]" % (v[0], v[1]),
+            "null": lambda: "~",
+            "intkey": lambda: "{1: %s}" % v[0],
             "typed": lambda: "{__type__: vf.harness.c05_plugins.make_arg, v: %s}" % v[0],
             "eager_seq": lambda: "!EagerArg [[%s, %s], {y: %s}]" % (v[0], v[1], v[2]),
             "eager_map": lambda: "!EagerArg {p: [%s, %s], q: {y: %s}}" % (v[0], v[1], v[2]),
@@ -124,6 +130,10 @@ class A:
         if self.kind == "nested":
             return (isinstance(got, list) and len(got) == 2 and eq(got[0], x[0]) and isinstance(got[1], dict)
                     and list(got[1]) == ["y"] and eq(got[1]["y"], x[1]))
+        if self.kind == "null":  # an explicitly configured null is an argument like any other
+            return got is None
+        if self.kind == "intkey":  # plain data: keys need not be strings
+            return isinstance(got, dict) and list(got) == [1] and eq(got[1], x[0])
         if self.kind == "typed":
             return (type(got) is P.Arg and got.args == () and list(got.kwargs) == ["v"] and eq(got.kwargs["v"], x[0]))
         if not by_value:
@@ -142,7 +152,7 @@ class A:
         return final_ok and got.snapshot is not None and list(got.snapshot[0]) == list(want_args) and got.snapshot[1] == want_kwargs
 
 
-AKINDS = ("scalar", "nested", "typed", "eager_seq", "eager_map", "lazy_map")
+AKINDS = ("scalar", "nested", "null", "intkey", "typed", "eager_seq", "eager_map", "lazy_map")
 
 
 def _spec(ctx, n, rich=True):
@@ -166,7 +176,7 @@ def _spec(ctx, n, rich=True):
             if name == "a" and i == (1 if n >= 3 else 0):
                 kinds = [k for k in (AKINDS if rich else AKINDS[:2]) if k != "typed" or form == "legacy"]
                 kind = kinds[ctx.choice("akind%d" % i, len(kinds))]
-            nvals = {"scalar": 1, "nested": 2, "typed": 1}.get(kind, 3)
+            nvals = {"scalar": 1, "nested": 2, "typed": 1, "null": 0, "intkey": 1}.get(kind, 3)
             kw[name] = A(kind, [ctx.num("e%d_%s%d" % (i, name, j), "int") for j in range(nvals)])
         spec.append((cls, form, kw))
     return spec, fail
@@ -328,7 +338,7 @@ def tasks(tier, seed):
     nmax = 3 if tier == "quick" else 4
     out = []
     for n in range(1, nmax + 1):
-        rich = n <= 2 or (tier == "thorough" and n == 3)  # all six kinds of argument value
+        rich = n <= 2 or (tier == "thorough" and n == 3)  # all eight kinds of argument value
         out.append(Task(MOD, "pipeline", dict(n=n, rich=rich), model="Z", weight=20 ** n,
                         shards=1 if n < 2 else (4 if n == 2 else (16 if n == 3 else 64)),
                         witness_every=1 if n < 3 or (n == 3 and tier == "thorough") else (3 if n == 3 else 13)))
